@@ -108,7 +108,10 @@ def ProcInv (p : Proc) : Prop := Inv (fun d => d) p.lexers ∧ Inv (fun k : Pars
 theorem step_spec (p : Proc) (op : Op) (hp : ProcInv p) :
     (step p op).2 = (specStep p.envs op).2 ∧ (step p op).1.envs = (specStep p.envs op).1 ∧ ProcInv (step p op).1 := by
   cases op with
-  | newEnv cfg => exact ⟨rfl, rfl, hp⟩
+  | newEnv cfg =>
+    have hpr := call_spec parserKeyEq (fun k : ParserKey => k.id)
+      (by intro a b h; simp [parserKeyEq] at h; exact h.1) p.parsers ⟨p.envs.length, (cfg.delims, cfg.mode)⟩ hp.2
+    exact ⟨rfl, rfl, hp.1, hpr.2.1⟩
   | setMode id m => exact ⟨rfl, rfl, hp⟩
   | setTags id t => exact ⟨rfl, rfl, hp⟩
   | setFilters id t => exact ⟨rfl, rfl, hp⟩
